@@ -713,6 +713,30 @@ impl Pool {
             shard.validate()?;
         }
 
+        // Shards are addressed by their position, so the numbers written in the
+        // file must be exactly 0, 1, ..., n - 1.
+        let mut shard_numbers = self
+            .shards
+            .keys()
+            .filter_map(|shard_idx| shard_idx.parse::<usize>().ok())
+            .collect::<Vec<usize>>();
+        shard_numbers.sort();
+        shard_numbers.dedup();
+
+        if shard_numbers.len() != self.shards.len()
+            || shard_numbers
+                .iter()
+                .enumerate()
+                .any(|(position, shard_number)| position != *shard_number)
+        {
+            error!(
+                "Shards must be numbered 0 to {} without gaps, got: {:?}",
+                self.shards.len().saturating_sub(1),
+                self.shards.keys().collect::<Vec<&String>>()
+            );
+            return Err(Error::BadConfig);
+        }
+
         for (option, name) in [
             (&self.shard_id_regex, "shard_id_regex"),
             (&self.sharding_key_regex, "sharding_key_regex"),
